@@ -3229,8 +3229,9 @@ def _tpl_aaa(_, instr, op):
         first_part = m2_expr.ExprOp(op, r_ax, to_add)
     new_ax = first_part & m2_expr.ExprInt(0xff0f,
                                           size=r_ax.size)
-    # set AL
-    e.append(m2_expr.ExprAssign(r_ax, m2_expr.ExprCond(cond, new_ax, r_ax)))
+    # set AL: the high nibble of AL is cleared whether or not the adjustment is done
+    e.append(m2_expr.ExprAssign(r_ax, m2_expr.ExprCond(
+        cond, new_ax, r_ax & m2_expr.ExprInt(0xff0f, size=r_ax.size))))
     e.append(m2_expr.ExprAssign(af, cond))
     e.append(m2_expr.ExprAssign(cf, cond))
     return e, []
